@@ -422,8 +422,8 @@ Lemma core_push e :
 Proof.
   intros H. destruct K. constructor; try assumption.
   - intros c Hc He Ht. apply in_or_app. left. eauto.
-  - intros w t Hi. apply in_app_or in Hi. destruct Hi as [Hi|[<-|[]]]; eauto.
-  - intros d Hi. apply in_app_or in Hi. destruct Hi as [Hi|[<-|[]]]; eauto.
+  - intros w t Hi. apply in_app_or in Hi. destruct Hi as [Hi|[Hi|[]]]; [eauto | subst e; exact H].
+  - intros d Hi. apply in_app_or in Hi. destruct Hi as [Hi|[Hi|[]]]; [eauto | subst e; exact H].
 Qed.
 
 Lemma live_push e : liveC rs cs (p ++ [e]) = liveC rs cs p ++ pending_callers [e].
